@@ -59,10 +59,10 @@ def gen_cases(ctx):
     for l in S.load_corpus("C12"):
         e, d = l.split("\t", 1)
         cases.append((C.unhexs(e[4:]) if e.startswith("hex:") else e, d or "n"))
-    base = S.expr_cases(ctx, 4000 if q else 80000, 2500 if q else 50000, 500 if q else 10000, 500 if q else 10000, 300 if q else 6000)
+    base = S.expr_cases(ctx, 4000 if q else 400000, 2500 if q else 250000, 500 if q else 50000, 500 if q else 50000, 300 if q else 30000)
     for _, e in base:
         cases.append((rng.choice(PREFIXES) + e, G.rand_doc(rng, 3)))
-    for _ in range(300 if q else 6000):
+    for _ in range(300 if q else 30000):
         f = rng.choice(["sort_by", "max_by", "min_by"])
         cases.append((rng.choice(PREFIXES) + f"{f}(@, &{rng.choice(['a', '@', 'to_array(@)', 'b.c', 'to_string(@)'])})",
                       "[ " + " ".join(rng.choice(["u1", "s61", "n", "[ ]", "{ s61 u1 }", "{ s61 s62 }"]) for _ in range(rng.randrange(1, 4))) + " ]"))
@@ -123,7 +123,7 @@ def run(ctx):
     # errfmt ---------------------------------------------------------------------------------
     rng = ctx.rng
     fm = []
-    for _ in range(3000 if ctx.tier == "quick" else 60000):
+    for _ in range(3000 if ctx.tier == "quick" else 300000):
         s = "".join(rng.choice(["a", "b", "\n", "\n", "é", "😀", " ", ".", "~", "\t", "\r", "\r\n"]) for _ in range(rng.randrange(0, 14)))
         n = len(s.encode())
         fm.append((s, rng.choice([0, n, rng.randrange(0, n + 3)])))
